@@ -25,6 +25,7 @@ type lEx struct {
 	W      []string // atom: its words; lam: the words before "(fun"; match: the target
 	Post   []string // lam: words after ")"
 	Params []string // lam
+	One    bool     // if: its bodies always stand on the line of their if/elif (they are one-line expressions)
 	Cond   *lEx     // if
 	Then   []*lSt
 	Elifs  []lElif
@@ -162,6 +163,13 @@ func IF(c any, then []*lSt, rest ...any) *lEx {
 	}
 	return e
 }
+
+// IF1: an if that is written with same-line bodies in every layout (all bodies must be one-line expressions).
+func IF1(c any, then []*lSt, rest ...any) *lEx {
+	e := IF(c, then, rest...)
+	e.One = true
+	return e
+}
 func MATCH(target string, arms ...lArm) *lEx { return &lEx{K: "match", W: lWords(target), Arms: arms} }
 
 func TFN(hdr string, items ...any) *lTop { return &lTop{K: "fn", St: FN(hdr, items...)} }
@@ -198,8 +206,6 @@ type layOpt struct {
 	Canon    bool
 	Comments bool
 	Tabs     bool
-	Hazard   bool // force exactly one hazard site (HazAt) into a known-finding shape
-	HazAt    int
 	NoEOFNL  bool // allowed to drop the final newline
 	Over     bool // model-valid layouts outside the property's grammar: later statements of a block indented more than the block
 	// (but left of what the previous statement left open), else/elif left of the enclosing block
@@ -605,26 +611,12 @@ func (l *lay) expr(e *lEx, off int) int {
 	}
 }
 
-// hazHit: is this the hazard site to be rendered in the known-finding shape?
-func (l *lay) hazHit(kind string) bool {
-	if !l.o.Hazard {
-		return false
-	}
-	l.hazSeen++
-	l.hazKinds = append(l.hazKinds, kind)
-	if l.hazSeen-1 == l.o.HazAt {
-		l.HazKind = kind
-		return true
-	}
-	return false
-}
-
+// ifExpr: every then-body that is a single one-line expression may stand on the line of its if/elif; the
+// following else/elif then stands on the same line (else: only with a one-line expression as its body) or
+// on a later line at a column inside the offside line of the enclosing block. After a body that is a block
+// the following else/elif stands on a later line, left of that block. Returns the column of the block the
+// expression leaves open (0: none).
 func (l *lay) ifExpr(e *lEx, off int) int {
-	simpleAll := lSimple(e.Then) && (e.Else == nil || lSimple(e.Else))
-	for _, ei := range e.Elifs {
-		simpleAll = simpleAll && lSimple(ei.Body)
-	}
-	condOne := e.Cond.K == "atom"
 	head := func(kw string, c *lEx) {
 		l.put(kw)
 		l.gap()
@@ -632,91 +624,73 @@ func (l *lay) ifExpr(e *lEx, off int) int {
 		l.gap()
 		l.put("then")
 	}
-	// hazard shapes of finding (n): kept out of the main stream
-	if len(e.Elifs) > 0 && simpleAll && e.Else != nil && condOne && l.hazHit("one-line-elif") {
-		head("if", e.Cond)
-		l.gap()
-		l.expr(e.Then[0].E, off)
-		for _, ei := range e.Elifs {
+	prevInline := false
+	prev := 0
+	body := func(b []*lSt) {
+		if lSimple(b) && (e.One || l.p(1, 3)) {
+			l.f("if:then-body-same-line")
 			l.gap()
-			head("elif", ei.Cond)
-			l.gap()
-			l.expr(ei.Body[0].E, off)
+			l.expr(b[0].E, off)
+			prevInline = true
+			return
 		}
-		l.gap()
+		l.f("if:then-body-next-line")
+		prev = l.blockNext(b, off)
+		prevInline = false
+	}
+	lowKw := false
+	// keyword position after the previous body; sameLineOK: the keyword may share the line of an inline body
+	keyword := func(sameLineOK bool) (sameLine bool) {
+		lowKw = false
+		if prevInline {
+			if sameLineOK && l.p(1, 2) {
+				l.f("if:else/elif-same-line")
+				l.gap()
+				return true
+			}
+			l.f("if:else/elif-next-line-after-same-line-body")
+			l.eol()
+			l.indent(off + l.n(9))
+			return false
+		}
+		l.eol()
+		if l.o.Over && off > 0 && l.p(1, 3) {
+			// 'else' / 'elif' only has to be left of the block before it (Layout.wf_ifrest)
+			l.f("over:else-left-of-enclosing-block")
+			lowKw = true
+			l.indent(l.r.Intn(off))
+		} else {
+			l.indent(off + l.n(prev-off))
+		}
+		return false
+	}
+	head("if", e.Cond)
+	body(e.Then)
+	for _, ei := range e.Elifs {
+		keyword(true)
+		head("elif", ei.Cond)
+		body(ei.Body)
+	}
+	if e.Else == nil {
+		if prevInline {
+			return 0
+		}
+		return prev
+	}
+	if keyword(lSimple(e.Else)) {
 		l.put("else")
 		l.gap()
 		l.expr(e.Else[0].E, off)
 		return 0
 	}
-	inlineThenHaz := lSimple(e.Then) && (e.Else != nil || len(e.Elifs) > 0) && l.hazHit("inline-then-newline-else")
-	if !inlineThenHaz && len(e.Elifs) == 0 && simpleAll && condOne && l.p(1, 2) {
-		l.f("if:one-line")
-		head("if", e.Cond)
+	l.put("else")
+	if !lowKw && l.p(1, 3) {
+		l.f("else-body:same-line")
 		l.gap()
-		l.expr(e.Then[0].E, off)
-		if e.Else != nil {
-			l.gap()
-			l.put("else")
-			l.gap()
-			l.expr(e.Else[0].E, off)
-		}
-		return 0
+		return l.blockInline(e.Else, off)
 	}
-	l.f("if:multi-line")
-	head("if", e.Cond)
-	prev := 0
-	if inlineThenHaz {
-		l.gap()
-		l.expr(e.Then[0].E, off)
-		prev = off + 1 + l.n(6)
-	} else {
-		prev = l.blockNext(e.Then, off)
-	}
-	lowKw := false
-	kwcol := func() int {
-		lowKw = false
-		if l.o.Over && off > 0 && l.p(1, 3) {
-			lowKw = true
-			// 'else' / 'elif' only has to be left of the block before it (Layout.wf_ifrest)
-			l.f("over:else-left-of-enclosing-block")
-			return l.r.Intn(off)
-		}
-		return off + l.n(prev-off)
-	}
-	for i, ei := range e.Elifs {
-		l.eol()
-		l.indent(kwcol())
-		head("elif", ei.Cond)
-		if i == len(e.Elifs)-1 && lSimple(ei.Body) && e.Else != nil && lSimple(e.Else) && l.p(1, 4) {
-			l.f("if:elif-tail-one-line")
-			l.gap()
-			l.expr(ei.Body[0].E, off)
-			l.gap()
-			l.put("else")
-			l.gap()
-			l.expr(e.Else[0].E, off)
-			return 0
-		}
-		prev = l.blockNext(ei.Body, off)
-	}
-	if e.Else != nil {
-		l.eol()
-		l.indent(kwcol())
-		l.put("else")
-		if !lowKw && l.p(1, 3) {
-			l.f("else-body:same-line")
-			l.gap()
-			prev = l.blockInline(e.Else, off)
-		} else {
-			l.f("else-body:next-line")
-			prev = l.blockNext(e.Else, off)
-		}
-	}
-	if inlineThenHaz && e.Else == nil && len(e.Elifs) == 0 {
-		return 0
-	}
-	return prev
+	l.f("else-body:next-line")
+	return l.blockNext(e.Else, off)
 }
 
 func (l *lay) top(t *lTop) {
@@ -932,6 +906,13 @@ func c06Templates() [][]*lTop {
 		// 43: a union match inside a string match arm, followed by the string match's default
 		{u3(), TFN("f# (s:string) (u:U#)",
 			MATCH("s", ARM(`"a"`, MATCH("u", ARM("A# i", "i"), ARM("B# _", "1"), ARM("C#", "2"))), ARM("_", "0")))},
+		// 45: a then-block that ends with a one-line if without else, then the else of the enclosing if: the
+		// else stands left of the block that contains the inner if, so the inner if must not take it
+		{TFN("f# (x:int)", IF("x > 0", B(`frt.Println "a"`, IF1("x > 1", B(`frt.Println "b"`))), ELSE(`frt.Println "c"`)), `frt.Println "d"`)},
+		// 46: the same inside an elif chain and a match arm
+		{TUNION("U#", "A# of int", "B# of string", "C#"), TFN("f# (u:U#) (x:int)",
+			MATCH("u", ARM("A# i", IF("i > 0", B(IF1("x > 1", B(`frt.Println "b"`))), ELIF("i < 0", B(IF1("x > 2", B(`frt.Println "e"`)))), ELSE(`frt.Println "c"`))),
+				ARM("_", IF1("x > 3", B(`frt.Println "z"`)))), `frt.Println "d"`)},
 		// 44: string match with a variable rule nested in the last arm of a string match
 		{TFN("f# (s:string) (t:string)",
 			MATCH("s", ARM(`"a"`, "1"), ARM("o", MATCH("t", ARM(`"b"`, "strings.Length o"), ARM("p", "strings.Length p")))))},
